@@ -2,6 +2,7 @@ package rwc
 
 import (
 	"context"
+	"sync"
 
 	"github.com/practable/relay/internal/agg"
 	"github.com/practable/relay/internal/hub"
@@ -12,10 +13,29 @@ import (
 type Hub struct {
 	Messages  *agg.Hub
 	Clients   map[string]*Client //map Id string to client
-	Rules     map[string]Rule    //map Id string to Rule
+	Rules     map[string]Rule    //map Id string to Rule; written by Run() under rulesMu, read through GetRules()/GetRule()
+	rulesMu   sync.RWMutex       //guards Rules, which the API handlers read while Run() updates it
 	Add       chan Rule
 	Delete    chan string      //Id string
 	Broadcast chan hub.Message //for messages incoming from the websocket server(s)
+}
+
+// GetRules returns a copy of the rule table, safe to use while Run() is updating it
+func (h *Hub) GetRules() map[string]Rule {
+	h.rulesMu.RLock()
+	defer h.rulesMu.RUnlock()
+	rules := make(map[string]Rule, len(h.Rules))
+	for id, rule := range h.Rules {
+		rules[id] = rule
+	}
+	return rules
+}
+
+// GetRule returns the rule with that id (the zero Rule if there is none), safe to use while Run() is updating the table
+func (h *Hub) GetRule(id string) Rule {
+	h.rulesMu.RLock()
+	defer h.rulesMu.RUnlock()
+	return h.Rules[id]
 }
 
 // Rule represents a rule for outgoing messages
